@@ -77,6 +77,28 @@ impl ReProgram {
         r
     }
 
+    /// Verification hook: a program with every search shortcut switched off.
+    #[cfg(regexml_verif)]
+    pub(crate) fn new_unoptimized(
+        pattern: Vec<char>,
+        operation: Operation,
+        max_parens: Option<usize>,
+        flags: ReFlags,
+    ) -> Self {
+        Self {
+            pattern,
+            operation,
+            flags,
+            prefix: None,
+            initial_char_class: None,
+            preconditions: Vec::new(),
+            optimization_flags: 0,
+            max_parens,
+            minimum_length: 0,
+            backtracking_limit: None,
+        }
+    }
+
     pub(crate) fn add_precondition(
         &mut self,
         op: Operation,
